@@ -3,6 +3,8 @@ package main
 import "time"
 
 var configs = map[string]checkCfg{
+	"C10": {QuickBudget: 150 * time.Second, ThoroughBudge: 20 * time.Minute,
+		Rule: "states = distinct documents (every ordered selection of <=k members from the 48-member menu with at most one deciding member per kind, x 3 layouts, plus array-wrapped variants); transitions = (document, limit) executions: limit 0, len+1 and every cut from 12 bytes before the end of the first deciding member to the end; non-trivial = documents containing at least one deciding member"},
 	"C08": {QuickBudget: 150 * time.Second, ThoroughBudge: 20 * time.Minute,
 		Rule: "states = generator states of the RFC 8259 pushdown generator plus documents produced (structure axis <= T tokens / depth 4; lexical menu x structures x 7 layouts; all whitespace choices per gap of small documents; nestings to depth 4096); transitions = generator edges plus (document, limit) executions: every cut after the opening bracket and three whole-file limits; non-trivial = (document, cut) pairs executed in truncated mode (distinct by construction)"},
 	"C09": {QuickBudget: 150 * time.Second, ThoroughBudge: 20 * time.Minute,
